@@ -197,7 +197,7 @@ Definition spec_class (kind : Z) : Z :=
   | 24 => 6                   (* 15.12.3 Str/JO/JA: cyclic -> TypeError *)
   | 25 => 5                   (* 15.12.2 step 2 -> SyntaxError *)
   | 26 => 5                   (* 15.10.4.1: pattern not a Pattern -> SyntaxError *)
-  | 27 => 5                   (* 15.10.4.1: repeated flag -> SyntaxError *)
+  | 27 => 5                   (* 15.10.4.1: repeated or unknown flag -> SyntaxError *)
   | 28 => 7                   (* 15.1.3 Decode -> URIError *)
   | 29 => 6                   (* 15.2.3.x step 1: Type(O) is not Object -> TypeError *)
   | 30 => 6                   (* 15.3.4.3/4/5 step 1 -> TypeError *)
